@@ -177,7 +177,14 @@ def run_incremental(scn, sched_tape, stop_factory=None, step_cap=None, lenient=F
                 rr.waiting = "gate"
                 ext = sim.external(f"gate:{i}:pull#{k}", "gate", ("value", None), owner=i)
                 ext.lazy = knobs.pull == "lazy"
-                await ext.fut
+                close_fut = getattr(stop, "close_fut", None)
+                if close_fut is not None:
+                    # stop-instant sweep: the same pending set as the base run; whichever is first
+                    await asyncio.wait({ext.fut, close_fut}, return_when=asyncio.FIRST_COMPLETED)
+                    if close_fut.done():
+                        continue
+                else:
+                    await ext.fut
             rr.waiting = "anext"
             rr.cleanup_poll = sim.poll  # (the pull after the last payload runs the cleanup)
             try:
